@@ -66,7 +66,6 @@ TRule ==
             \cup (IF e.cardAfter # <<>> /\ e.bg # <<>> /\ Meets(e.cardAfter, e.bg, tgt) = "LT" THEN {"C08_CardMeetsTarget"} ELSE {})
             \cup When(e.cardAfter # <<>>, "C08_CardColourUnreadable")
             \cup When(e.written = e.cardAfter, "C08_ReportedIsWritten")
-            \cup When(e.cardBgOk, "C08_CardBackground")
             \* C04 through the command: with --mode 0 an adjusted colour is within dE 5.0 of the colour it replaces
             \cup (IF run.mode = 0 /\ e.cardDe4 > 50010 THEN {"C04_CliStrictCap"} ELSE {})
          failedFails ==
@@ -86,6 +85,8 @@ TRule ==
      IN /\ fails' = fails \cup (f \ excused)
         /\ known' = known \cup (IF f \cap excused # {} THEN {e.known} ELSE {})
         /\ incon' = incon \cup (IF e.cat = "card" /\ e.cardAfter # <<>> /\ e.bg # <<>> /\ Meets(e.cardAfter, e.bg, tgt) = "CLOSE" THEN {"C08_CardMeetsTarget"} ELSE {})
+                          \* what the card shows as background is presentation, not part of the property: drift only
+                          \cup (IF e.cat = "card" /\ ~e.cardBgOk THEN {"D_CardBackground"} ELSE {})
                           \cup (IF e.cat = "rest" /\ e.outText # <<>> /\ Meets(e.outText, e.outBg, tgt) = "CLOSE" THEN {"C08_CountedReadableButFails"} ELSE {})
         /\ nRest' = nRest + (IF e.cat = "rest" THEN 1 ELSE 0)
         /\ nCard' = nCard + (IF e.cat = "card" THEN 1 ELSE 0)
